@@ -125,7 +125,11 @@ fn main() {
                         // under-determined: fewer non-negligible singular values than variables
                         let rank = sigma.iter().filter(|s| **s > 1e-9 * smax).count();
                         let under = rank < xs.len();
-                        let bucket = if under { "under-determined" } else { "fully-determined" };
+                        // weakly determined: full rank, but sigma_min/sigma_max below what Newton-Kantorovich
+                        // needs for a 1e-2 ball (about 2*pert*sqrt(n)): the nearby solution's basin is smaller
+                        // than the ball, in exact arithmetic too; the iterates slide along the weak direction
+                        let weak = smin_nz / smax < 0.05;
+                        let bucket = if under { "under-determined" } else if weak { "ill-conditioned" } else { "fully-determined" };
                         bad(format!("result is {d1:.3e} from the guess, more than 1.5 x the distance {d0:.3e} from the guess to the planted solution (kinds: {})", kinds.join("+")), format!("jumps-away-{bucket}"));
                     }
                 }
